@@ -53,6 +53,9 @@ CHECKS = {
  "C17": ("exploration", "CLI round-trip property test: generated file trees x layer/level/key options x create|convert|repair pipelines, every read-side command compared with the input files; negative runs with wrong / missing / superfluous keys",
          "With the `mlar` binary built from the tree, after create and after every convert / repair stage, list, list -vv (humansize DECIMAL size and SHA-256), cat, both forms of extract and to-tar (parsed with the tar crate) must give back exactly the generated files; wrong key, no key and a key for an archive without encryption must fail with a non-zero status and no output content on all six commands.",
          "Sizes are bounded (one ~4 MiB file per tree at most, brotli quality <= 7) to keep a pipeline under a second.", "DESIGN.md section 4 C17"),
+ "C18": ("exploration", "round-trip and totality property test of curve25519-parser over generated seeds, PEM wrappings, concatenations and mutated / random DER and PEM bytes; libFuzzer target in the thorough tier",
+         "Generated X25519 pairs and harness-built Ed25519 pairs (SHA-512, clamp, base-point multiplication with curve25519-dalek) must parse in DER and PEM to a private key whose public key equals the parsed public key and the independently computed one; all PEM wrappings that are accepted must give the same key, the OpenSSL layout must be accepted, concatenated public keys keep their order; mutated and random inputs must never panic and, when accepted, must yield the key field a lenient TLV walk finds.",
+         "Only the 64-column OpenSSL PEM layout is required to parse; stack overflow in the DER parser would kill the in-process check (none observed; the libFuzzer target runs in its own process).", "DESIGN.md section 4 C18"),
  "C19": ("exploration", "differential property test of the mlar binary against a harness re-implementation of the README algorithm (own ChaCha20 block function, HKDF-SHA512) over generated seeds, parent key forms and path lists",
          "For generated seeds (unicode, empty, long), parent keys (unclamped / clamped X25519 DER, Ed25519 DER, PEM) and path lists (1..4, repeated, empty), the files written by `mlar keygen --seed` and `mlar keyderive` must equal the documented algorithm, be reproducible, compose path by path, and the .pub file must match the private file.",
          "Open finding keyderive-ikm-not-clamped is reported as KNOWN-FINDING and only suppresses outputs that equal the unclamped-IKM variant for parents not in clamped form. Trusts sha2, hkdf, x25519-dalek as primitives.", "DESIGN.md section 4 C19"),
